@@ -4,7 +4,7 @@
    decode_rune.go and internal/decoder/string.go. *)
 From Coq Require Import NArith ZArith List Bool.
 From GJ Require Import Base.Bytes Base.Word64 Gen.Tables Gen.Swar Model.Int Model.StrEnc Model.StrDec
-  Proofs.WordP Proofs.SwarP Proofs.StrEncP Proofs.StrBodyP Proofs.StrDecP.
+  Proofs.WordP Proofs.SwarP Proofs.StrEncP Proofs.StrBodyP Proofs.StrDecP Proofs.SepP.
 Import ListNotations.
 Open Scope N_scope.
 
@@ -62,20 +62,37 @@ Theorem C17_string_roundtrip : forall html normalize s, ok s ->
 Proof.
   intros html normalize s Hs. pose proof (all_variants html normalize) as V.
   destruct html, normalize; destruct V as (ts & A & B & C & D); unfold append_string_v;
-    rewrite (string_roundtrip _ _ _ _ ts A B C D s Hs); unfold normf; try reflexivity;
-    rewrite firstn_all; reflexivity.
+    rewrite (string_roundtrip _ _ _ _ ts A B C D s Hs); unfold normf; reflexivity.
 Qed.
 Print Assumptions C17_string_roundtrip.
 
-(* the recorded deviation: HTML escaping without normalisation leaves U+2028 raw *)
-Theorem C17_html_no_normalize_2028_refuted :
-  append_string_v true false [226; 128; 168] = [34; 226; 128; 168; 34].
-Proof. vm_compute. reflexivity. Qed.
+(* 4. with HTML escaping on (normalising or not), and with normalisation on, the literal contains
+      neither U+2028 nor U+2029 as raw bytes: E2 is a flagged byte in these three tables, and the
+      slow loop escapes the two separators (the case of appendHTMLString added by the fix recorded in
+      KNOWN_FINDINGS.txt; decodeRuneInString in the normalising variants) *)
+Lemma e2_flagged : tblb enc_needEscapeHTMLNormalizeUTF8 226 = true /\ tblb enc_needEscapeHTML 226 = true /\
+                   tblb enc_needEscapeNormalizeUTF8 226 = true.
+Proof. repeat split; vm_compute; reflexivity. Qed.
+
+Theorem C17_no_raw_line_separators : forall html normalize s, html || normalize = true -> ok s ->
+  exists body, append_string_v html normalize s = 34 :: body ++ [34] /\ sep_free body = true.
+Proof.
+  intros html normalize s Hm Hs. exists (slow_v html normalize s).
+  split; [apply C17_swar_fast_path_sound; exact Hs|].
+  pose proof (all_variants html normalize) as V. destruct e2_flagged as (F11 & F10 & F01).
+  destruct html, normalize; try discriminate Hm; destruct V as (ts & _ & _ & T & _); unfold slow_v;
+    apply slow_sep_free; try assumption; reflexivity.
+Qed.
+Print Assumptions C17_no_raw_line_separators.
 
 (* non-vacuity *)
 Example C17_ex_offsets :
   append_string_v true true [97;97;97;97;97;97;97;97;97;60;255] =
   [34;97;97;97;97;97;97;97;97;97;92;117;48;48;51;99;92;117;102;102;102;100;34].
+Proof. vm_compute. reflexivity. Qed.
+Example C17_ex_separator :
+  append_string_v true false [97; 226; 128; 168; 226; 128; 167; 226; 128; 169] =
+  [34; 97; 92; 117; 50; 48; 50; 56; 226; 128; 167; 92; 117; 50; 48; 50; 57; 34].
 Proof. vm_compute. reflexivity. Qed.
 Example C17_ex_surrogate :
   unmarshal_string [34;92;117;100;56;51;100;92;117;100;101;48;48;34] = StrRes false (Some [240;159;152;128]).
